@@ -3,6 +3,7 @@
 #![allow(dead_code)]
 
 pub mod container;
+pub mod crash;
 pub mod dirgen;
 pub mod engine;
 pub mod faults;
